@@ -34,6 +34,10 @@ def plan(tier, seed):
     for name in XT:
         for nac in ((None, "wang", "gonze") if name in NACX else (None,)):
             groups.append([{"xtal": name, "nac": nac}])
+    # a non-default unit factor (every calculator but VASP has one)
+    for name in XT[:3] if tier == "quick" else XT:
+        for nac in ((None, "wang") if name in NACX else (None,)):
+            groups.append([{"xtal": name, "nac": nac, "factor": 108.97077}])
     if tier != "quick":
         # thorough: other meshes (odd, anisotropic), longer-ranged model, non-diagonal supercell, more crystals
         for name in XT:
@@ -90,7 +94,12 @@ def run_case(case, seed):
     if case.get("S"):
         S = case["S"]
     c = phx.xtal(name)
-    ph = phx.make_phonopy(c, S, None)
+    import phonopy.units as U0
+
+    FACT = case.get("factor") or U0.VaspToTHz
+    ph = phx.make_phonopy(c, S, None, **({"factor": case["factor"]} if case.get("factor") else {}))
+    if case.get("factor"):
+        tag += "/factor=%g" % case["factor"]
     MESH = case.get("mesh", [2, 2, 2])
     ph.force_constants = phx.supercell_fc(ph, phx.model_for(ph, case.get("model", "nn"), seed))
     if nac:
@@ -127,7 +136,7 @@ def run_case(case, seed):
         import phonopy.units as U
 
         for k in range(len(D)):
-            lam_k = np.sign(f[k]) * (f[k] / U.VaspToTHz) ** 2
+            lam_k = np.sign(f[k]) * (f[k] / FACT) ** 2
             r = D[k] @ v[k] - v[k] * lam_k[None, :]
             if np.abs(r).max() > 1e-9 * dscale:
                 return fail("eigen-equation/" + what, "reported eigenvectors do not diagonalise the reported dynamical matrix to the reported eigenvalues at q=%s (residual %.3g)" % (qs[k].round(4).tolist(), np.abs(r).max() / dscale))
@@ -204,6 +213,31 @@ def run_case(case, seed):
             return bad
     except Exception as e:
         return fail("iter-mesh-raised", "%s: %s" % (type(e).__name__, str(e)[:150]))
+    # the same q-points handed over in every memory layout
+    from vtk.alphabet import qsets as QS
+
+    for lname, qa in QS.layouts(qs).items():
+        ph.run_qpoints(qa, with_eigenvectors=True, with_dynamical_matrices=True)
+        d = ph.get_qpoints_dict()
+        trans += 1
+        bad = cmp_freq(np.array(d["frequencies"]), "run_qpoints(q array layout: %s)" % lname)
+        if bad:
+            return bad
+        if np.abs(np.array(d["dynamical_matrices"]) - ref["dynamical_matrices"]).max() > 1e-10 * dscale:
+            return fail("q-layout/dynamical-matrix", "run_qpoints with the q-points as %s gives other dynamical matrices" % lname)
+        if isinstance(qa, np.ndarray):
+            k = len(qs) - 2
+            fk = np.array(ph.get_frequencies(qa[k]))
+            if np.abs(lam(fk) - lam(ref["frequencies"][k])).max() / fscale ** 2 > 1e-9:
+                return fail("q-layout/get_frequencies", "get_frequencies(row of a %s array) differs from run_qpoints" % lname)
+            dm = ph.dynamical_matrix
+            dm.run(qa[k])
+            if np.abs(dm.dynamical_matrix - ref["dynamical_matrices"][k]).max() > 1e-10 * dscale:
+                return fail("q-layout/dynamical_matrix.run", "dynamical_matrix.run(row of a %s array) differs from run_qpoints" % lname)
+            ph.run_band_structure([qa[1:]], with_eigenvectors=False)  # without Gamma (a path gives it a NAC direction)
+            bad = cmp_freq(np.array(ph.get_band_structure_dict()["frequencies"][0]), "run_band_structure(q array layout: %s)" % lname, slice(1, None))
+            if bad:
+                return bad
     # band structure with the q-set as a path, connection off/on
     for conn in (False, True):
         ph.run_band_structure([qs[1:]], with_eigenvectors=True, with_group_velocities=True, is_band_connection=conn)
@@ -223,7 +257,7 @@ def run_case(case, seed):
             Dk = ref["dynamical_matrices"][k + 1]
             import phonopy.units as U
 
-            lk = np.sign(f[k]) * (f[k] / U.VaspToTHz) ** 2
+            lk = np.sign(f[k]) * (f[k] / FACT) ** 2
             if np.abs(Dk @ v[k] - v[k] * lk[None, :]).max() > 1e-8 * dscale:
                 return fail("band-structure/eigenvector-pairing/connection=%s" % conn, "eigenvectors along the band path are not paired with their frequencies at q=%s" % qs[k + 1].round(4).tolist())
     # dynamical-matrix object and single-q getters
@@ -241,7 +275,7 @@ def run_case(case, seed):
         for nm, ff in (("get_frequencies", f1), ("get_frequencies_with_eigenvectors", np.array(f2))):
             if np.abs(lam(ff) - lam(ref["frequencies"][k])).max() > 1e-9 * fscale ** 2:
                 return fail("path/" + nm, "differs from run_qpoints at q=%s" % qs[k].round(4).tolist())
-        lk = np.sign(f2) * (np.array(f2) / U.VaspToTHz) ** 2
+        lk = np.sign(f2) * (np.array(f2) / FACT) ** 2
         if np.abs(ref["dynamical_matrices"][k] @ v2 - v2 * lk[None, :]).max() > 1e-8 * dscale:
             return fail("path/get_frequencies_with_eigenvectors", "eigenvectors do not diagonalise D at q=%s" % qs[k].round(4).tolist())
         trans += 4
